@@ -15,6 +15,7 @@ import (
 	"sort"
 	"strconv"
 	"sync"
+	"sync/atomic"
 	"time"
 )
 
@@ -219,6 +220,59 @@ func Yield(point string) {
 		r.mu.Lock()
 		r.UncontrolledY++
 		r.mu.Unlock()
+		return
+	}
+	r.park(g, point, nil)
+}
+
+// Pool replaces sync.Pool (whose hit-or-miss behaviour depends on the P a
+// goroutine runs on and on the garbage collector): a plain LIFO free list, so
+// that whether New runs - and with it every scheduling point inside New - is a
+// function of the execution alone.
+type Pool struct {
+	mu   sync.Mutex
+	free []any
+	New  func() any
+}
+
+func (p *Pool) Get() any {
+	p.mu.Lock()
+	if n := len(p.free); n > 0 {
+		x := p.free[n-1]
+		p.free = p.free[:n-1]
+		p.mu.Unlock()
+		return x
+	}
+	p.mu.Unlock()
+	if p.New != nil {
+		return p.New()
+	}
+	return nil
+}
+
+func (p *Pool) Put(x any) {
+	p.mu.Lock()
+	p.free = append(p.free, x)
+	p.mu.Unlock()
+}
+
+var denseOn atomic.Bool
+
+// SetDense switches the dense scheduling points (rewriter rule R9) on or off for the coming run.
+func SetDense(on bool) { denseOn.Store(on) }
+
+// YieldDense is a scheduling point before an ordinary statement; it does
+// nothing unless the run uses dense scheduling.
+func YieldDense(point string) {
+	if !denseOn.Load() {
+		return
+	}
+	r := current()
+	if r == nil {
+		return
+	}
+	g := r.self()
+	if g == nil || g.abort {
 		return
 	}
 	r.park(g, point, nil)
